@@ -1136,6 +1136,248 @@ theorem hamming_spec {s : St} {inp : List Bool} (hwf : WF s inp) {x y : List Nat
   simp only [sumVal] at hav
   rw [hav, pairVals_zip, hv1, hv2]
 
+/-! ### array index -/
+
+theorem getD_take_lt {α : Type} (l : List α) (k i : Nat) (d : α) (h : i < k) :
+    (l.take k).getD i d = l.getD i d := by
+  simp [List.getD_eq_getElem?_getD, List.getElem?_take, h]
+
+theorem getD_drop' {α : Type} (l : List α) (k i : Nat) (d : α) :
+    (l.drop k).getD i d = l.getD (k + i) d := by
+  simp [List.getD_eq_getElem?_getD, List.getElem?_drop]
+
+theorem getD_of_le {α : Type} (l : List α) (i : Nat) (d : α) (h : l.length ≤ i) : l.getD i d = d := by
+  simp [List.getD_eq_getElem?_getD, List.getElem?_eq_none h]
+
+/-- Values selected by a row of MUX bits over two equally long buses. -/
+theorem muxBits_zip_spec {s : St} {inp : List Bool} (hwf : WF s inp) {t f : List Nat} {cond : Nat}
+    (ht : Bnd s t) (hf : Bnd s f) (hc : cond < s.next) (hl : t.length = f.length) :
+    Spec inp s (muxBits cond (t.zip f)) (fun z s' => Bnd s' z ∧
+      busVal s' inp z = if s.val inp cond then busVal s inp t else busVal s inp f) := by
+  refine (muxBits_spec _ hwf cond (BndP.zip ht hf) hc).mono ?_
+  intro r s2 _ ⟨hr, hrv⟩
+  refine ⟨hr, ?_⟩
+  rw [hrv, pairVals_zip]
+  cases s.val inp cond
+  · simp only [Bool.false_eq_true, if_false]
+    rw [show (fun p : Bool × Bool => p.2) = Prod.snd from rfl, List.map_snd_zip (by simp; omega)]
+  · simp only [if_true]
+    rw [show (fun p : Bool × Bool => p.1) = Prod.fst from rfl, List.map_fst_zip (by simp; omega)]
+
+/-- Elements of the array: all wires exist, every element has `size` wires. -/
+def GoodE (s : St) (size : Nat) (els : List (List Nat)) : Prop :=
+  ∀ e ∈ els, Bnd s e ∧ e.length = size
+
+theorem GoodE.mono {s s' : St} {inp : List Bool} {size : Nat} {els : List (List Nat)} (e : Ext s s' inp)
+    (h : GoodE s size els) : GoodE s' size els := fun x hx => ⟨(h x hx).1.mono e, (h x hx).2⟩
+
+theorem elsVal_ext {s s' : St} {inp : List Bool} {size : Nat} {els : List (List Nat)} (e : Ext s s' inp)
+    (h : GoodE s size els) : els.map (busVal s' inp) = els.map (busVal s inp) :=
+  List.map_congr_left fun x hx => busVal_ext e (h x hx).1
+
+theorem getD_els {s : St} {inp : List Bool} (els : List (List Nat)) (dflt : List Nat) (i : Nat) (size : Nat)
+    (hd : busVal s inp dflt = List.replicate size false) :
+    busVal s inp (els.getD i dflt) = (els.map (busVal s inp)).getD i (List.replicate size false) := by
+  by_cases h : i < els.length
+  · simp [List.getD_eq_getElem?_getD, h]
+  · rw [getD_of_le _ _ _ (by omega), getD_of_le _ _ _ (by simp; omega), hd]
+
+theorem getD_els_good {s : St} {size : Nat} {els : List (List Nat)} {dflt : List Nat} (hg : GoodE s size els)
+    (hdb : Bnd s dflt) (hdl : dflt.length = size) (i : Nat) :
+    Bnd s (els.getD i dflt) ∧ (els.getD i dflt).length = size := by
+  by_cases h : i < els.length
+  · have : els.getD i dflt = els[i] := by simp [List.getD_eq_getElem?_getD, h]
+    rw [this]; exact hg _ (List.getElem_mem h)
+  · rw [getD_of_le _ _ _ (by omega)]; exact ⟨hdb, hdl⟩
+
+theorem toNat_take_succ (iv : List Bool) (k : Nat) (h : k < iv.length) :
+    toNat (iv.take (k + 1)) = toNat (iv.take k) + 2 ^ k * (iv.getD k false).toNat := by
+  rw [List.take_add_one, toNat_append]
+  simp [List.getD_eq_getElem?_getD, List.getElem?_eq_getElem h, Nat.min_eq_left (Nat.le_of_lt h)]
+
+theorem newIndexRec_spec {inp : List Bool} (index dflt : List Nat) (size : Nat) :
+    ∀ (bit length : Nat) (els : List (List Nat)) {s : St} (_ : WF s inp),
+    Bnd s index → 0 < index.length → Bnd s dflt → dflt.length = size →
+    busVal s inp dflt = List.replicate size false → GoodE s size els →
+    1 ≤ els.length → els.length ≤ length → length = 2 ^ (bit + 1) →
+    Spec inp s (newIndexRec index dflt bit length els) (fun z s' => Bnd s' z ∧ z.length = size ∧
+      busVal s' inp z = (els.map (busVal s inp)).getD (toNat ((busVal s inp index).take (bit + 1)))
+        (List.replicate size false)) := by
+  intro bit
+  induction bit with
+  | zero =>
+    intro length els s hwf hib hil hdb hdl hdv hg h1 h2 h3
+    simp only [newIndexRec]
+    have hf := getD_els_good hg hdb hdl 0
+    have ht : Bnd s (if els.length > 1 then els.getD 1 dflt else dflt) ∧
+        (if els.length > 1 then els.getD 1 dflt else dflt).length = size := by
+      split
+      · exact getD_els_good hg hdb hdl 1
+      · exact ⟨hdb, hdl⟩
+    refine (muxBits_zip_spec hwf ht.1 hf.1 (getD_bnd hib 0 hil) (by rw [ht.2, hf.2])).mono ?_
+    intro z s1 _ ⟨hzb, hzv⟩
+    have hzl : z.length = size := by
+      have := congrArg List.length hzv
+      rw [busVal_length] at this
+      rw [this]; split
+      · rw [busVal_length, ht.2]
+      · rw [busVal_length, hf.2]
+    refine ⟨hzb, hzl, ?_⟩
+    rw [hzv, val_getD index 0 hil]
+    have hb0 : toNat ((busVal s inp index).take (0 + 1)) = ((busVal s inp index).getD 0 false).toNat := by
+      rw [toNat_take_succ _ 0 (by simpa using hil)]; simp
+    rw [hb0]
+    cases (busVal s inp index).getD 0 false
+    · simp only [Bool.false_eq_true, if_false, Bool.toNat_false]
+      exact getD_els els dflt 0 size hdv
+    · simp only [if_true, Bool.toNat_true]
+      split
+      · exact getD_els els dflt 1 size hdv
+      · rw [hdv, getD_of_le _ _ _ (by simp; omega)]
+  | succ bit ih =>
+    intro length els s hwf hib hil hdb hdl hdv hg h1 h2 h3
+    simp only [newIndexRec]
+    have hhalf : length / 2 = 2 ^ (bit + 1) := by
+      rw [h3, Nat.pow_succ]; omega
+    rw [hhalf]
+    have hpos : 0 < 2 ^ (bit + 1) := Nat.two_pow_pos _
+    have hn2 : els.length ≤ 2 * 2 ^ (bit + 1) := by
+      rw [h3, Nat.pow_succ] at h2; omega
+    -- the lower half
+    have hfa : GoodE s size (if els.length > 2 ^ (bit + 1) then els.take (2 ^ (bit + 1)) else els) ∧
+        1 ≤ (if els.length > 2 ^ (bit + 1) then els.take (2 ^ (bit + 1)) else els).length ∧
+        (if els.length > 2 ^ (bit + 1) then els.take (2 ^ (bit + 1)) else els).length ≤ 2 ^ (bit + 1) := by
+      split
+      · exact ⟨fun e he => hg e (List.mem_of_mem_take he), by simp; omega, by simp; omega⟩
+      · exact ⟨hg, h1, by omega⟩
+    have hlow : toNat ((busVal s inp index).take (bit + 1)) < 2 ^ (bit + 1) := by
+      have := toNat_lt ((busVal s inp index).take (bit + 1))
+      have hl : ((busVal s inp index).take (bit + 1)).length ≤ bit + 1 := by simp; omega
+      exact Nat.lt_of_lt_of_le this (Nat.pow_le_pow_right (by omega) hl)
+    have hfv : ((if els.length > 2 ^ (bit + 1) then els.take (2 ^ (bit + 1)) else els).map (busVal s inp)).getD
+        (toNat ((busVal s inp index).take (bit + 1))) (List.replicate size false) =
+        (els.map (busVal s inp)).getD (toNat ((busVal s inp index).take (bit + 1)))
+          (List.replicate size false) := by
+      split
+      · rw [List.map_take, getD_take_lt _ _ _ _ hlow]
+      · rfl
+    split
+    · next hshort =>
+      -- not enough index bits: lower half only
+      refine (ih (2 ^ (bit + 1)) _ hwf hib hil hdb hdl hdv hfa.1 hfa.2.1 hfa.2.2 rfl).mono ?_
+      intro z s1 _ ⟨hzb, hzl, hzv⟩
+      refine ⟨hzb, hzl, ?_⟩
+      rw [hzv, hfv]
+      have : (busVal s inp index).take (bit + 1 + 1) = (busVal s inp index).take (bit + 1) := by
+        rw [List.take_of_length_le (by simp; omega), List.take_of_length_le (by simp; omega)]
+      rw [this]
+    · next hlong =>
+      have hbl : bit + 1 < index.length := by omega
+      refine Spec.bind (ih (2 ^ (bit + 1)) _ hwf hib hil hdb hdl hdv hfa.1 hfa.2.1 hfa.2.2 rfl) ?_
+      intro fVal s1 e1 ⟨hfb, hfl, hfvv⟩
+      have hdv1 : busVal s1 inp dflt = List.replicate size false := by rw [busVal_ext e1 hdb, hdv]
+      have hiv1 : busVal s1 inp index = busVal s inp index := busVal_ext e1 hib
+      -- the upper half
+      have upper : Spec inp s1
+          (if els.length > 2 ^ (bit + 1) then newIndexRec index dflt bit (2 ^ (bit + 1)) (els.drop (2 ^ (bit + 1)))
+            else pure dflt)
+          (fun z s' => Bnd s' z ∧ z.length = size ∧
+            busVal s' inp z = (els.map (busVal s inp)).getD
+              (2 ^ (bit + 1) + toNat ((busVal s inp index).take (bit + 1))) (List.replicate size false)) := by
+        split
+        · next hgt =>
+          have hgd : GoodE s1 size (els.drop (2 ^ (bit + 1))) :=
+            fun e he => (hg.mono e1) e (List.mem_of_mem_drop he)
+          refine (ih (2 ^ (bit + 1)) _ e1.wf (hib.mono e1) hil (hdb.mono e1) hdl hdv1 hgd (by simp; omega)
+            (by simp; omega) rfl).mono ?_
+          intro z s2 _ ⟨hzb, hzl, hzv⟩
+          refine ⟨hzb, hzl, ?_⟩
+          have hgd0 : GoodE s size (els.drop (2 ^ (bit + 1))) := fun e he => hg e (List.mem_of_mem_drop he)
+          rw [hzv, hiv1, elsVal_ext e1 hgd0, List.map_drop, getD_drop']
+        · next hle =>
+          refine Spec.pure e1.wf ⟨hdb.mono e1, hdl, ?_⟩
+          rw [hdv1, getD_of_le _ _ _ (by simp; omega)]
+      refine Spec.bind upper ?_
+      intro tVal s2 e2 ⟨htb, htl, htv⟩
+      have hcb : index.getD (bit + 1) 0 < s2.next :=
+        Nat.lt_of_lt_of_le (getD_bnd hib (bit + 1) hbl) (e1.trans e2).next
+      refine (muxBits_zip_spec e2.wf htb (hfb.mono e2) hcb (by rw [htl, hfl])).mono ?_
+      intro z s3 _ ⟨hzb, hzv⟩
+      have hzl : z.length = size := by
+        have := congrArg List.length hzv
+        rw [busVal_length] at this
+        rw [this]; split
+        · rw [busVal_length, htl]
+        · rw [busVal_length, hfl]
+      refine ⟨hzb, hzl, ?_⟩
+      rw [hzv, (e1.trans e2).val _ (getD_bnd hib (bit + 1) hbl), val_getD index (bit + 1) hbl, htv,
+        busVal_ext e2 hfb, hfvv, hfv, toNat_take_succ _ (bit + 1) (by simpa using hbl)]
+      cases (busVal s inp index).getD (bit + 1) false
+      · simp
+      · simp [Nat.add_comm]
+
+theorem indexBits_spec : ∀ (fuel n b l : Nat), l = 2 ^ b → n ≤ fuel + l → 1 ≤ l →
+    (indexBits fuel n b l).2 = 2 ^ (indexBits fuel n b l).1 ∧ n ≤ (indexBits fuel n b l).2 ∧
+      b ≤ (indexBits fuel n b l).1
+  | 0, n, b, l, hl, hn, _ => by
+    simp only [indexBits]; exact ⟨hl, by omega, Nat.le_refl _⟩
+  | fuel + 1, n, b, l, hl, hn, h1 => by
+    simp only [indexBits]
+    split
+    · have := indexBits_spec fuel n (b + 1) (l * 2) (by rw [hl, Nat.pow_succ]) (by omega) (by omega)
+      exact ⟨this.1, this.2.1, by omega⟩
+    · exact ⟨hl, by omega, Nat.le_refl _⟩
+
+theorem chunks_good {s : St} (size : Nat) : ∀ (k : Nat) (l : List Nat), Bnd s l → l.length = k * size →
+    GoodE s size (chunks size k l) ∧ (chunks size k l).length = k
+  | 0, l, _, _ => And.intro (fun e he => nomatch he) rfl
+  | k + 1, l, hb, hl => by
+    have hsz : size ≤ l.length := by rw [hl, Nat.succ_mul]; omega
+    have ih := chunks_good size k (l.drop size) (hb.drop size) (by
+      rw [List.length_drop, hl, Nat.succ_mul]; omega)
+    simp only [chunks]
+    refine ⟨?_, by simp [ih.2]⟩
+    intro e he
+    rcases List.mem_cons.mp he with rfl | he
+    · exact ⟨hb.take size, by simp; omega⟩
+    · exact ih.1 e he
+
+theorem chunks_map {α β : Type} (f : α → β) (size : Nat) : ∀ (k : Nat) (l : List α),
+    (chunks size k l).map (List.map f) = chunks size k (l.map f)
+  | 0, _ => rfl
+  | k + 1, l => by
+    simp only [chunks, List.map_cons, List.map_take, List.map_drop, chunks_map f size k]
+
+/-- `NewIndex`: for an array of `n ≥ 1` elements of `size ≥ 1` bits and a
+non-empty index the result is element `index mod 2^bits` (`bits` = the number of
+index bits the builder uses, `2^bits ≥ n`), and 0 when that is outside the array. -/
+theorem newIndex_spec {s : St} {inp : List Bool} (hwf : WF s inp) (size : Nat) {array index : List Nat}
+    (n : Nat) (ha : Bnd s array) (hi : Bnd s index) (hal : array.length = n * size) (hsz : 0 < size)
+    (hn : 0 < n) (hil : 0 < index.length) :
+    Spec inp s (newIndex size array index) (fun z s' => Bnd s' z ∧ z.length = size ∧
+      busVal s' inp z = (chunks size n (busVal s inp array)).getD
+        (toNat ((busVal s inp index).take (indexBits n n 1 2).1)) (List.replicate size false)) := by
+  unfold newIndex
+  have hdiv : array.length / size = n := by rw [hal, Nat.mul_div_cancel _ hsz]
+  simp only [hdiv]
+  rw [if_neg (by omega)]
+  have hbits := indexBits_spec n n 1 2 rfl (by omega) (by omega)
+  refine Spec.bind (zeroWire_spec hwf) ?_
+  intro z s1 e1 hz
+  have hch := chunks_good (s := s) size n array ha hal
+  have hdv : busVal s1 inp (List.replicate size z) = List.replicate size false := by
+    rw [busVal_replicate, hz.2]
+  have hb1 : (indexBits n n 1 2).1 - 1 + 1 = (indexBits n n 1 2).1 := by omega
+  refine (newIndexRec_spec index (List.replicate size z) size ((indexBits n n 1 2).1 - 1) (indexBits n n 1 2).2
+    (chunks size n array) e1.wf (hi.mono e1) hil (Bnd.replicate hz.1 size) (by simp) hdv (hch.1.mono e1)
+    (by rw [hch.2]; omega) (by rw [hch.2]; exact hbits.2.1) (by rw [hb1]; exact hbits.1)).mono ?_
+  intro r s2 _ ⟨hrb, hrl, hrv⟩
+  refine ⟨hrb, hrl, ?_⟩
+  rw [hrv, hb1, busVal_ext e1 hi, elsVal_ext e1 hch.1]
+  have : (chunks size n array).map (busVal s inp) = chunks size n (busVal s inp array) :=
+    chunks_map (s.val inp) size n array
+  rw [this]
+
 /-! ### the harness wrapper: inputs, prologue, `ret` -/
 
 theorem emptySt_wf {nIn : Nat} {inp : List Bool} (hl : inp.length = nIn) (hp : 0 < nIn) :
